@@ -255,7 +255,7 @@ func TestC22(t *testing.T) {
 			for _, m := range msgs {
 				c.Messages = append(c.Messages, proto.Message{ID: m.ID, SeqNo: int(m.SeqNo), Bytes: len(m.Body), Body: m.Body})
 			}
-			var enc bin.Buffer
+			enc := usedBuffer()
 			if err := c.Encode(&enc); err != nil {
 				t.Fatalf("container of %d messages (max body %d): Encode: %v", len(msgs), maxBody(msgs), err)
 			}
@@ -295,7 +295,7 @@ func TestC22(t *testing.T) {
 			big := 1
 			body := genBody(t, &big)
 			want := refResult(id, body)
-			var enc bin.Buffer
+			enc := usedBuffer()
 			if err := (&proto.Result{RequestMessageID: id, Result: body}).Encode(&enc); err != nil {
 				t.Fatalf("result: Encode: %v", err)
 			}
@@ -328,7 +328,7 @@ func TestC22(t *testing.T) {
 			big := 1
 			data := genBody(t, &big)
 			want := refUnencrypted(id, data)
-			var enc bin.Buffer
+			enc := usedBuffer()
 			if err := (proto.UnencryptedMessage{MessageID: id, MessageData: data}).Encode(&enc); err != nil {
 				t.Fatalf("unencrypted: Encode: %v", err)
 			}
@@ -384,7 +384,7 @@ func TestC22(t *testing.T) {
 				data = bytes.Repeat([]byte("gzip_packed "), n/12+1)[:n]
 			}
 			// the library's own encoder ...
-			var enc bin.Buffer
+			enc := usedBuffer()
 			if err := (proto.GZIP{Data: data}).Encode(&enc); err != nil {
 				t.Fatalf("gzip of %d bytes: Encode: %v", n, err)
 			}
@@ -906,4 +906,16 @@ func FuzzC22(f *testing.F) {
 		c22DecodeAny(t, int(which), data)
 		checkPool(t, "fuzz input")
 	})
+}
+
+var c22Dirty = make([]byte, 1<<16)
+
+// usedBuffer is an empty buffer whose 64 KiB of spare capacity are full of
+// another message's bytes, as a pooled buffer after Reset is: what is encoded
+// into it must not depend on them.
+func usedBuffer() bin.Buffer {
+	for i := range c22Dirty {
+		c22Dirty[i] = 0xA5
+	}
+	return bin.Buffer{Buf: c22Dirty[:0]}
 }
